@@ -13,7 +13,7 @@
 (*    panic     Process panics                                             *)
 (* The property (C09) is Intended(s) \in {"filtered","error"} for every     *)
 (* shape; the shapes where AsIs differs are the named deviation classes     *)
-(* F9a..F9d, F12 of DESIGN.md (known findings).                            *)
+(* F9b, F9c of DESIGN.md (known findings; F9a, F9d, F12 were repaired).                            *)
 (***************************************************************************)
 EXTENDS Naturals, Sequences, FiniteSets, TLC, Json
 CONSTANT MaxD
@@ -58,12 +58,11 @@ Tracked(r) ==
   LET h == r[1] IN
   CASE h \in Leaves -> "filtered"
     [] h = "ptr" -> LET r2 == Tail(r) IN
-         (CASE r2[1] \in {"str", "bytes"} -> "panic"
-           [] r2[1] \in {"strs", "bytess"} -> "filtered"
+         (CASE r2[1] \in Leaves -> "filtered"                  \* a pointer to the filtered value is stored back (F12 repaired)
            [] r2[1] = "struct" -> Struct(Tail(r2), TRUE)
            [] r2[1] = "map" -> Tracked(Tail(r2))
            [] r2[1] = "slice" -> MapSlice(Tail(r2)))
-    [] h = "struct" -> Struct(Tail(r), FALSE)
+    [] h = "struct" -> Struct(Tail(r), TRUE)                  \* an addressable copy is filtered and stored back (F9d repaired)
     [] h = "map" -> Tracked(Tail(r))
     [] h = "slice" -> MapSlice(Tail(r))
 MapSlice(r) ==
@@ -93,20 +92,17 @@ AsIs(s) ==
          (CASE t[1] \in Leaves -> "filtered"
            [] t[1] = "struct" -> Struct(Tail(t), TRUE)
            [] t[1] = "slice" -> TopSlice(Tail(t))
-           [] t[1] = "map" -> "leak")
+           [] t[1] = "map" -> Tracked(Tail(Tail(s))))          \* a map as the payload is tracked and swept (F9a repaired)
     [] h = "struct" -> Struct(Tail(s), FALSE)
     [] h = "slice" -> TopSlice(Tail(s))
-    [] h = "map" -> "leak"
+    [] h = "map" -> Tracked(Tail(s))
 
 (* the known deviation classes, by shape *)
 Has2(s, a, b) == \E i \in 1..(Len(s) - 1) : s[i] = a /\ s[i+1] = b
 Has3(s, a, b, C) == \E i \in 1..(Len(s) - 2) : s[i] = a /\ s[i+1] = b /\ s[i+2] \in C
 ClassOf(s) ==
-  CASE s[1] = "map" \/ (s[1] = "ptr" /\ Len(s) > 1 /\ s[2] = "map") -> "F9a"     \* a map as the payload itself
-    [] AsIs(s) = "panic" -> "F12"                                                  \* map value of pointer-to-string/bytes
-    [] Has2(s, "slice", "slice") \/ Has3(s, "slice", "ptr", {"slice"}) -> "F9b"    \* slice of slices
+  CASE Has2(s, "slice", "slice") \/ Has3(s, "slice", "ptr", {"slice"}) -> "F9b"    \* slice of slices
     [] s[1] = "struct" -> "F9c"                                                    \* struct payload by value
-    [] Has2(s, "map", "struct") -> "F9d"                                           \* struct by value inside a map
     [] OTHER -> "other"
 Intended(s) == IF AsIs(s) \in {"leak", "panic"} THEN "filtered" ELSE AsIs(s)
 
